@@ -485,7 +485,13 @@ class SimpleCorrelator(AbstractCorrelator):
         smsc_message_id: str = receipt_dict.get('id', '')
         item: Optional[Tuple[float, SubmitSm]] = self._delivery_store.pop(smsc_message_id, None)
         submit_sm: Optional[SubmitSm] = item[1] if item else None
-        if submit_sm and str(submit_sm.sequence_num) in self._segment_store.keys():
+        # Sequence numbers come round again (e.g. after a restart): the number of a message that
+        # was not segmented may meanwhile belong to a segment of a newer message
+        if (
+            submit_sm
+            and 0 < submit_sm.get_segmentation_data()[2] <= 255
+            and str(submit_sm.sequence_num) in self._segment_store.keys()
+        ):
             error_code: int = receipt_dict.get('err', DLR_ERROR_OTHER_ERROR)
             ref_num, seq_num = self._segment_store[str(submit_sm.sequence_num)]
             segment_status: Optional[SegmentStatus] = self._segment_status_store.get(str(ref_num))
